@@ -28,6 +28,16 @@ Theorem C09_identity : forall T rO rI radd rmul rsub ropp, ring_theory rO rI rad
   forall N v, length v = N -> AlgebraCore.affine_apply rO rI radd rmul (affine_identity rO rI N) v = v.
 Proof. exact identity_apply. Qed.
 
+(* the constructors have their textbook meaning *)
+Theorem C09_translation : forall T rO rI radd rmul rsub ropp, ring_theory rO rI radd rmul rsub ropp (@eq T) ->
+  forall t v, length v = length t ->
+  AlgebraCore.affine_apply rO rI radd rmul (translation rO rI t) v = map (fun i => radd (nth i v rO) (nth i t rO)) (seq 0 (length t)).
+Proof. exact translation_apply. Qed.
+Theorem C09_scaling : forall T rO rI radd rmul rsub ropp, ring_theory rO rI radd rmul rsub ropp (@eq T) ->
+  forall s v, length v = length s ->
+  AlgebraCore.affine_apply rO rI radd rmul (scaling rO rI s) v = map (fun i => rmul (nth i s rO) (nth i v rO)) (seq 0 (length s)).
+Proof. exact scaling_apply. Qed.
+
 (* the layer queries its backend at A.x + t, computed by exactly this algebra *)
 Theorem C09_affine_layer : forall (ops : sops) t m (b : query) c,
   affine_at ops t m b c =
